@@ -1,9 +1,13 @@
 """C06 — local polynomial regression is the kernel-weighted least-squares fit per point."""
 from fractions import Fraction
 
+import ast
+import os
+
 import numpy as np
 
-from common import F, Rng, close, digest, err_class, fl, rs, vec
+import common
+from common import F, InfraError, Rng, close, digest, err_class, fl, rs, vec
 
 PROP = "C06"
 MODULES = ["FDAProofs.Props.C06"]
@@ -45,6 +49,232 @@ DOMAINS = {
     "julian": (Fraction(2 ** 21), Fraction(64)),          # offset ~2.1e6 >> spread
     "giga": (Fraction(0), Fraction(2 ** 30)),             # ~1e9 wide
 }
+
+
+# --------------------------------------------------------------------------
+# translator: the kernels of local_polynomial.py -> lean/FDAModel/Generated/Kernels.lean
+# --------------------------------------------------------------------------
+
+GEN_FILE = os.path.join(common.LEAN_DIR, "FDAModel", "Generated", "Kernels.lean")
+_KERNEL_FUNCS = [("_epanechnikov", "epanechnikovGen"), ("_tri_cube", "tricubeGen"), ("_bi_square", "bisquareGen")]
+
+
+class _Shape(ValueError):
+    pass
+
+
+def _q(v):
+    """A numeric literal of the source as an exact rational (its decimal text, not its binary rounding)."""
+    if isinstance(v, bool) or not isinstance(v, (int, float)):
+        raise _Shape(f"unsupported literal {v!r}")
+    fr = Fraction(str(v))
+    return f"(({fr.numerator} : ℚ) / {fr.denominator})" if fr.denominator != 1 else f"({fr.numerator} : ℚ)"
+
+
+def _is_np(node, name):
+    return isinstance(node, ast.Call) and isinstance(node.func, ast.Attribute) and node.func.attr == name and isinstance(node.func.value, ast.Name) and node.func.value.id == "np"
+
+
+def _expr(node, arg, idx, env=None):
+    """Python expression over the kernel argument -> Lean term over `u : ℚ` (`env`: simple local assignments to inline)."""
+    if env:
+        inner = lambda n, a, i: _expr_core(n, a, i, lambda m: _expr(m, arg, idx, env))  # noqa: E731
+        if isinstance(node, ast.Name) and node.id in env and node.id != arg:
+            return _expr(env[node.id], arg, idx, {k: v for k, v in env.items() if k != node.id})
+        return inner(node, arg, idx)
+    return _expr_core(node, arg, idx, lambda m: _expr(m, arg, idx))
+
+
+def _expr_core(node, arg, idx, rec):
+    if isinstance(node, ast.Constant):
+        return _q(node.value)
+    if isinstance(node, ast.Name) and node.id == arg:
+        return "u"
+    if isinstance(node, ast.Subscript) and isinstance(node.value, ast.Name) and node.value.id == arg and isinstance(node.slice, ast.Name) and node.slice.id == idx:
+        return "u"
+    if isinstance(node, ast.UnaryOp) and isinstance(node.op, ast.USub):
+        return f"(-{rec(node.operand)})"
+    if isinstance(node, ast.BinOp):
+        if isinstance(node.op, ast.Pow):
+            if not (isinstance(node.right, ast.Constant) and isinstance(node.right.value, int) and node.right.value >= 0):
+                raise _Shape("exponent is not a non-negative integer literal")
+            return f"({rec(node.left)} ^ {node.right.value})"
+        ops = {ast.Add: "+", ast.Sub: "-", ast.Mult: "*", ast.Div: "/"}
+        if type(node.op) not in ops:
+            raise _Shape(f"unsupported operator {type(node.op).__name__}")
+        return f"({rec(node.left)} {ops[type(node.op)]} {rec(node.right)})"
+    if _is_np(node, "square") and len(node.args) == 1:
+        return f"({rec(node.args[0])} ^ 2)"
+    if _is_np(node, "abs") and len(node.args) == 1:
+        return f"|{rec(node.args[0])}|"
+    if _is_np(node, "power") and len(node.args) == 2:
+        e = node.args[1]
+        if not (isinstance(e, ast.Constant) and isinstance(e.value, int) and e.value >= 0):
+            raise _Shape("np.power exponent is not a non-negative integer literal")
+        return f"({rec(node.args[0])} ^ {e.value})"
+    raise _Shape(f"unsupported expression {ast.dump(node)[:80]}")
+
+
+_CMPOPS = {ast.Lt: "<", ast.LtE: "≤", ast.Gt: ">", ast.GtE: "≥"}
+
+
+def _strip_doc(fn):
+    return [st for st in fn.body if not (isinstance(st, ast.Expr) and isinstance(st.value, ast.Constant))]
+
+
+def _compare(c, arg, idx, env=None):
+    if not (isinstance(c, ast.Compare) and len(c.ops) == 1 and type(c.ops[0]) in _CMPOPS):
+        raise _Shape("support condition is not a single comparison")
+    return f"{_expr(c.left, arg, idx, env)} {_CMPOPS[type(c.ops[0])]} {_expr(c.comparators[0], arg, idx, env)}"
+
+
+def _via_helper(fn, fns):
+    """One level of helper call: `return helper(x, lambda u: <expr>, closed=<bool>)` where the helper selects
+    `np.where(<c1>) if closed else np.where(<c2>)`, writes `kernel[support] = profile(x[support])` into zeros."""
+    body = _strip_doc(fn)
+    call = body[0].value
+    helper = fns.get(call.func.id) if isinstance(call.func, ast.Name) else None
+    if helper is None:
+        raise _Shape("returns a call of an unknown function")
+    params = [a.arg for a in helper.args.args]
+    actual = dict(zip(params, call.args))
+    actual.update({k.arg: k.value for k in call.keywords})
+    lams = [(k, v) for k, v in actual.items() if isinstance(v, ast.Lambda)]
+    flags = [(k, v) for k, v in actual.items() if isinstance(v, ast.Constant) and isinstance(v.value, bool)]
+    xs = [k for k, v in actual.items() if isinstance(v, ast.Name) and v.id == fn.args.args[0].arg]
+    if len(lams) != 1 or len(flags) > 1 or len(xs) != 1 or len(lams[0][1].args.args) != 1:
+        raise _Shape("helper call is not (x, lambda u: ..., <bool>)")
+    (pname, lam), xh = lams[0], xs[0]
+    hb = _strip_doc(helper)
+    env, where, zeros, store = {}, None, None, None
+    for st in hb[:-1]:
+        if not (isinstance(st, ast.Assign) and len(st.targets) == 1):
+            raise _Shape("helper has a statement that is not a simple assignment")
+        t, v = st.targets[0], st.value
+        if isinstance(t, ast.Name) and _is_np(v, "zeros"):
+            zeros = t.id
+        elif isinstance(t, ast.Name) and (_is_np(v, "where") or isinstance(v, ast.IfExp)):
+            if isinstance(v, ast.IfExp):
+                if not (flags and isinstance(v.test, ast.Name) and v.test.id == flags[0][0] and _is_np(v.body, "where") and _is_np(v.orelse, "where")):
+                    raise _Shape("helper support selection is not `np.where(c1) if <flag> else np.where(c2)`")
+                v = v.body if flags[0][1].value else v.orelse
+            where = (t.id, v.args[0])
+        elif isinstance(t, ast.Name):
+            env[t.id] = v
+        elif isinstance(t, ast.Subscript):
+            store = st
+        else:
+            raise _Shape("unsupported assignment in the helper")
+    if zeros is None or where is None or store is None:
+        raise _Shape("helper lacks zeros / np.where / the masked store")
+    t, v = store.targets[0], store.value
+    ok = (isinstance(t.value, ast.Name) and t.value.id == zeros and isinstance(t.slice, ast.Name) and t.slice.id == where[0]
+          and isinstance(v, ast.Call) and isinstance(v.func, ast.Name) and v.func.id == pname and len(v.args) == 1
+          and isinstance(v.args[0], ast.Subscript) and isinstance(v.args[0].value, ast.Name) and v.args[0].value.id == xh
+          and isinstance(v.args[0].slice, ast.Name) and v.args[0].slice.id == where[0]
+          and isinstance(hb[-1], ast.Return) and isinstance(hb[-1].value, ast.Name) and hb[-1].value.id == zeros)
+    if not ok:
+        raise _Shape("helper does not store profile(x[support]) into the zero array and return it")
+    return _compare(where[1], xh, where[0], env), _expr(lam.body, lam.args.args[0].arg, None)
+
+
+def _compact_kernel(fn, fns=None):
+    """`k = np.zeros(x.shape); idx = np.where(<cond on x>); k[idx] = <expr>; return k` -> (cond, expr) in Lean."""
+    arg = fn.args.args[0].arg
+    body = _strip_doc(fn)
+    if len(body) == 1 and isinstance(body[0], ast.Return) and isinstance(body[0].value, ast.Call) and fns is not None:
+        return _via_helper(fn, fns)
+    if len(body) != 4:
+        raise _Shape(f"{len(body)} statements instead of 4")
+    z, w, a, r = body
+    if not (isinstance(z, ast.Assign) and _is_np(z.value, "zeros") and isinstance(z.targets[0], ast.Name)):
+        raise _Shape("first statement is not `kernel = np.zeros(...)`")
+    kname = z.targets[0].id
+    if not (isinstance(w, ast.Assign) and _is_np(w.value, "where") and len(w.value.args) == 1 and isinstance(w.targets[0], ast.Name)):
+        raise _Shape("second statement is not `idx = np.where(<condition>)`")
+    idx = w.targets[0].id
+    c = w.value.args[0]
+    cond = _compare(c, arg, idx)
+    if not (isinstance(a, ast.Assign) and isinstance(a.targets[0], ast.Subscript) and isinstance(a.targets[0].value, ast.Name)
+            and a.targets[0].value.id == kname and isinstance(a.targets[0].slice, ast.Name) and a.targets[0].slice.id == idx):
+        raise _Shape("third statement is not `kernel[idx] = <expression>`")
+    if not (isinstance(r, ast.Return) and isinstance(r.value, ast.Name) and r.value.id == kname):
+        raise _Shape("last statement is not `return kernel`")
+    return cond, _expr(a.value, arg, idx)
+
+
+def _gaussian_constants(fn):
+    """`return np.exp(-np.square(x) / c1) / np.sqrt(c2 * np.pi)` -> (c1, c2)."""
+    arg = fn.args.args[0].arg
+    body = [st for st in fn.body if not (isinstance(st, ast.Expr) and isinstance(st.value, ast.Constant))]
+    if not (len(body) == 1 and isinstance(body[0], ast.Return)):
+        raise _Shape("body is not a single return")
+    v = body[0].value
+    ok = (isinstance(v, ast.BinOp) and isinstance(v.op, ast.Div) and _is_np(v.left, "exp") and _is_np(v.right, "sqrt"))
+    if ok:
+        e, sq = v.left.args[0], v.right.args[0]
+        ok = (isinstance(e, ast.BinOp) and isinstance(e.op, ast.Div) and isinstance(e.left, ast.UnaryOp) and isinstance(e.left.op, ast.USub)
+              and _is_np(e.left.operand, "square") and isinstance(e.left.operand.args[0], ast.Name) and e.left.operand.args[0].id == arg
+              and isinstance(e.right, ast.Constant)
+              and isinstance(sq, ast.BinOp) and isinstance(sq.op, ast.Mult) and isinstance(sq.left, ast.Constant)
+              and isinstance(sq.right, ast.Attribute) and sq.right.attr == "pi")
+    if not ok:
+        raise _Shape("not of the form np.exp(-np.square(x) / c1) / np.sqrt(c2 * np.pi)")
+    return _q(e.right.value), _q(sq.left.value)
+
+
+def kernels_lean_source(path):
+    tree = ast.parse(open(path).read())
+    fns = {n.name: n for n in tree.body if isinstance(n, ast.FunctionDef)}
+    lines = ["/-",
+             "GENERATED by harness/c06.py `translate()` from FDApy/preprocessing/smoothing/local_polynomial.py",
+             "(`_epanechnikov`, `_tri_cube`, `_bi_square`: support comparison and polynomial expression; `_gaussian`: constants).",
+             "Do not edit: regenerated on every run of `./check C06`.  `C06.kernel_gen_eq_model` proves these equal the model's kernels.",
+             "-/", "import FDAModel.Core.Quadrature", "", "namespace FDA.Generated", ""]
+    for py, lean in _KERNEL_FUNCS:
+        if py not in fns:
+            raise _Shape(f"function {py} not found")
+        try:
+            cond, expr = _compact_kernel(fns[py], fns)
+        except _Shape as e:
+            raise _Shape(f"{py}: {e}")
+        lines += [f"/-- `{py}` as the source has it. -/", f"def {lean} (u : ℚ) : ℚ := if {cond} then {expr} else 0", ""]
+    if "_gaussian" not in fns:
+        raise _Shape("function _gaussian not found")
+    try:
+        c1, c2 = _gaussian_constants(fns["_gaussian"])
+    except _Shape as e:
+        raise _Shape(f"_gaussian: {e}")
+    lines += ["/-- `_gaussian(x) = exp(-x² / gaussExpDiv) / sqrt(gaussNormCoef · π)`: the two constants of the source. -/",
+              f"def gaussExpDiv : ℚ := {c1}", f"def gaussNormCoef : ℚ := {c2}", "", "end FDA.Generated", ""]
+    return "\n".join(lines)
+
+
+TRANSLATOR_NOTE = None
+
+
+def translate():
+    """Regenerate Generated/Kernels.lean from what the source says now.  A source whose shape is not recognised (a
+    refactor) is NOT an alarm: the last generated file is kept, the evidence says that the tie of the kernels to the
+    source rests on the correspondence only for this run.  Only a successful translation can break a proof obligation."""
+    global TRANSLATOR_NOTE
+    path = os.path.join(common.REPO, "FDApy", "preprocessing", "smoothing", "local_polynomial.py")
+    try:
+        src = kernels_lean_source(path)
+    except (ValueError, SyntaxError, IndexError, AttributeError, KeyError, TypeError) as e:
+        if not os.path.exists(GEN_FILE):
+            raise InfraError(f"translator: kernels of {path} not recognised ({e}) and no generated file to fall back on")
+        TRANSLATOR_NOTE = f"translator: source shape not recognised, tie rests on the correspondence only ({e})"
+        print("note:", TRANSLATOR_NOTE)
+        return
+    except OSError as e:
+        raise InfraError(f"translator: cannot read {path}: {e}")
+    TRANSLATOR_NOTE = "translator: kernels regenerated from the source and re-proved equal to the model (C06.kernel_gen_eq_model)"
+    old = open(GEN_FILE).read() if os.path.exists(GEN_FILE) else None
+    if old != src:
+        os.makedirs(os.path.dirname(GEN_FILE), exist_ok=True)
+        with open(GEN_FILE, "w") as fh:
+            fh.write(src)
 
 
 # --------------------------------------------------------------------------
@@ -688,4 +918,4 @@ def extra_coverage(cases, impls, models):
             if s == "ok" and e != "s" and np.isfinite(f):
                 nq += 1
                 worst = max(worst, abs(f - float(Fraction(e))) / sc)
-    return dict(max_relative_deviation_from_exact_wls=worst, queries_compared_with_exact_value=nq)
+    return dict(max_relative_deviation_from_exact_wls=worst, queries_compared_with_exact_value=nq, translator=TRANSLATOR_NOTE)
